@@ -5,12 +5,25 @@
    invented - each with a getter of the right range, and the encoder writes each of them (finite: vm_compute).
    C05_shapes / C05_fixpoint: instances, on the decoder model that is compared with the real decoder on
    every run, of "every admissible shape of one property loads to the same value" and of the fixpoint.
-   PARTIAL: the generic statements (forall documents of the vocabulary model; forall decoded values) are not
-   proved; they are evaluated natively on documents written by encoding/json from an independent document
-   model (type x property subset x shape x nesting), on the repository's mock documents and on
-   structure-preserving mutations of them. *)
-From AP.Model Require Import Prelude Bytes Vocab Layout Json JsonLeaf JsonTables JsonEnc JsonCheck JsonCodec SpecTags.
-From AP.Gen Require Import Layout JsonW JsonR.
+   Proved for all documents (second half of this file), generically over read tables that satisfy decidable
+   table conditions, and instantiated with the tables regenerated from the source by vm_compute of the
+   conditions (so a source change that breaks them shows up as a broken obligation):
+     C05_equivalent_trees / C05_equivalent_documents: member order, unknown members, later duplicates of a
+       member, the way a string is escaped and insignificant white space do not change what is decoded;
+     C05_fields_read: a document object that decodes to a struct value has the kind its type member selects,
+       and every field holds what the one read entry of that field reads under its term - none ignored, none
+       invented, none attached to the wrong property;
+     C05_shape_independence: every item-valued property of every type, given as an IRI string, as an embedded
+       object or as an array of those, decodes to the item, the one-element list, and the list.
+   PARTIAL (still): "the decoded value equals the value the document was generated from" for a whole document
+   of the vocabulary model (C05_reads for scalar, time, text and struct-valued properties taken together) and the
+   fixpoint clause (needs the encoder side, C01) are not proved; they are evaluated natively on documents
+   written by encoding/json from an independent document model (type x property subset x shape x nesting), on
+   the repository's mock documents and on structure-preserving mutations of them. *)
+From AP.Model Require Import Prelude Bytes Text WsDoc Vocab Layout Json JsonLeaf JsonTables JsonEnc JsonCheck JsonDec JsonCodec SpecTags DocEquiv Shape.
+From AP.Gen Require Import Layout TypeLists Switches JsonW JsonR.
+From AP.Proofs Require Import NlvP TextP WsParseP DecEquivP ShapeP DecInstP.
+From Coq Require Import Permutation.
 
 Theorem C05_reads_vocabulary : check_all_spec jw_tables jr_tables spec_props = [].
 Proof. vm_compute. reflexivity. Qed.
@@ -55,4 +68,268 @@ Example C05_fixpoint_example :
 Proof.
   split; [vm_compute; reflexivity|]. split; [vm_compute; reflexivity|]. split; [vm_compute; reflexivity|].
   split; [vm_compute; reflexivity|]. split; vm_compute; reflexivity.
+Qed.
+
+(* ====================================================================================================
+   Generic part: for ALL documents.
+   ==================================================================================================== *)
+
+(* ---- table conditions, evaluated on the tables regenerated from the source on every run ---- *)
+(* no member name is read as natural-language text in one place and as something else in another *)
+Theorem C05_key_roles : keys_roles_ok jr_tables = true.
+Proof. exact key_roles_inst. Qed.
+(* for every kind: the read entries are recognised, no field is read twice, every field read is a field of the struct *)
+Theorem C05_reads_ok : forallb (reads_ok jr_tables layout_of) all_kinds = true.
+Proof. exact reads_ok_inst. Qed.
+
+(* ---- (1) tree level: equivalent documents decode alike, whatever their depth ---- *)
+(* generic: for every read table in which every member name has one role, for every struct layout, type
+   registry and dispatch switch, at every fuel *)
+Theorem C05_equivalent_trees_generic :
+  forall jr lo reg sw act actor lnk, keys_roles_ok jr = true ->
+  forall n a b, doc_equiv (known_of jr) (text_of jr) a b ->
+  load_item jr lo reg sw act actor lnk n a = load_item jr lo reg sw act actor lnk n b.
+Proof. exact equivalent_trees_generic. Qed.
+
+(* the decoder of the current tree, at the document entry point.  keys_clean: the document is inside the
+   model (no object spells a member name once with and once without an escape - see Model/JsonDec.v) *)
+Theorem C05_equivalent_trees : forall a b, keys_clean a = true -> keys_clean b = true ->
+  doc_equiv known text a b -> dec_tree a = dec_tree b.
+Proof. exact equivalent_trees_inst. Qed.
+
+(* every document none of whose member names is written with an escape is inside the model *)
+Theorem C05_plain_names_inside_model : forall v, keys_plain v = true -> keys_clean v = true.
+Proof. exact keys_plain_clean. Qed.
+(* outside: the real decoder's answer depends on fastjson's key cache (the first document decodes to an Actor
+   whose type is Note, the second has the name "esc": see Model/JsonDec.v keys_ambiguous and the directed cases
+   of harness/c05equiv.go); the model declines *)
+Example C05_escaped_twin_outside_model :
+  dec (B "{""typ\u0065"":""Note"",""type"":""Person"",""name"":""x""}") = None /\
+  dec (B "{""type"":""Note"",""nam\u0065"":""esc"",""name"":""plain""}") = None /\
+  dec (B "{""type"":""Note"",""nam\u0065"":""only escaped""}")
+    = Some (Ok (IObj true KObject [(F_Type, FStr (B "Note")); (F_Name, FNlv (Some [(B "-", B "only escaped")]))])).
+Proof. split; [vm_compute; reflexivity|]. split; vm_compute; reflexivity. Qed.
+
+(* which documents are equivalent: the rules (each for all trees) *)
+(* member order: any permutation of the members of an object whose (unescaped) names are pairwise different *)
+Theorem C05_member_order : forall k1 k2, Permutation k1 k2 -> NoDup (ukeys k1) -> teq known text (FObj k1) (FObj k2).
+Proof. exact (teq_perm known text). Qed.
+(* unknown members are ignored, wherever they stand and whatever they hold *)
+Theorem C05_unknown_member : forall a k v b, known (fj_unescape k) = false -> teq known text (FObj (a ++ b)) (FObj (a ++ (k, v) :: b)).
+Proof. exact (teq_extra known text). Qed.
+(* duplicates: fastjson's Object.Get returns the first member of a name; a later member with the same name
+   as written is never read *)
+Theorem C05_first_duplicate_wins : forall a k v b v' c,
+  teq known text (FObj (a ++ (k, v) :: b ++ (k, v') :: c)) (FObj (a ++ (k, v) :: b ++ c)).
+Proof. exact (teq_dup known text). Qed.
+(* a string may be escaped in any way that unescapes to the same bytes *)
+Theorem C05_string_escapes : forall r1 r2, fj_unescape r1 = fj_unescape r2 -> teq known text (Text.FStr r1) (Text.FStr r2).
+Proof. exact (teq_str known text). Qed.
+(* any of these inside a member that is not natural-language text, or inside an array element *)
+Theorem C05_inside_member : forall a k x y b,
+  (text (fj_unescape k) = true -> fj_norm x = fj_norm y) -> (text (fj_unescape k) = false -> teq known text x y) ->
+  teq known text (FObj (a ++ (k, x) :: b)) (FObj (a ++ (k, y) :: b)).
+Proof. exact (teq_member known text). Qed.
+Theorem C05_inside_element : forall a x y b, teq known text x y -> teq known text (FArr (a ++ x :: b)) (FArr (a ++ y :: b)).
+Proof. exact (teq_element known text). Qed.
+Theorem C05_equiv_refl : forall v, teq known text v v.
+Proof. exact (teq_refl known text). Qed.
+
+(* what is NOT insignificant, with the witness: the entries of a language map are ordered (a NaturalLanguageValues
+   is a list), so the order of the members of a language map matters *)
+Example C05_language_map_order_matters :
+  dec (B "{""type"":""Note"",""nameMap"":{""en"":""a"",""fr"":""b""}}")
+    = Some (Ok (IObj true KObject [(F_Type, FStr (B "Note")); (F_Name, FNlv (Some [(B "en", B "a"); (B "fr", B "b")]))])) /\
+  dec (B "{""type"":""Note"",""nameMap"":{""fr"":""b"",""en"":""a""}}")
+    = Some (Ok (IObj true KObject [(F_Type, FStr (B "Note")); (F_Name, FNlv (Some [(B "fr", B "b"); (B "en", B "a")]))])).
+Proof. split; vm_compute; reflexivity. Qed.
+
+(* ---- (1) byte level: insignificant white space ---- *)
+(* for every document generated by a printer that writes arbitrary runs of JSON white space (space, tab, LF,
+   CR) at every gap, the parser builds the tree without the white space *)
+Theorem C05_whitespace_parse : forall pre t post, wf_ws pre = true -> wf_ws post = true -> wf_wt t = true -> (wdepth t <= 300)%nat ->
+  fj_parse (pre ++ wprint t ++ post) = Ok (strip t).
+Proof. exact ws_parse. Qed.
+Theorem C05_whitespace_insignificant : forall pre1 t1 post1 pre2 t2 post2,
+  wf_ws pre1 = true -> wf_ws post1 = true -> wf_wt t1 = true -> (wdepth t1 <= 300)%nat ->
+  wf_ws pre2 = true -> wf_ws post2 = true -> wf_wt t2 = true -> (wdepth t2 <= 300)%nat ->
+  strip t1 = strip t2 ->
+  fj_parse (pre1 ++ wprint t1 ++ post1) = fj_parse (pre2 ++ wprint t2 ++ post2).
+Proof. exact ws_insignificant. Qed.
+
+(* ---- bytes to value: two document texts whose trees are equivalent decode to the same value ---- *)
+Theorem C05_equivalent_documents : forall pre1 t1 post1 pre2 t2 post2,
+  wf_ws pre1 = true -> wf_ws post1 = true -> wf_wt t1 = true -> (wdepth t1 <= 300)%nat ->
+  wf_ws pre2 = true -> wf_ws post2 = true -> wf_wt t2 = true -> (wdepth t2 <= 300)%nat ->
+  keys_clean (strip t1) = true -> keys_clean (strip t2) = true ->
+  doc_equiv known text (strip t1) (strip t2) ->
+  dec (pre1 ++ wprint t1 ++ post1) = dec (pre2 ++ wprint t2 ++ post2).
+Proof. exact equivalent_documents_inst. Qed.
+
+(* ---- (2) what is read: the fields of a decoded object ---- *)
+(* generic over tables: a document object that decodes to a struct value (at any depth of embedding: load n is
+   the loader of the embedded values) has the kind its type member selects; every read entry of that kind
+   gives its field exactly the value it reads under its term; a field without a read entry is unset *)
+Theorem C05_fields_read_generic :
+  forall jr lo reg sw act actor lnk n kvs p k fs,
+  load_item jr lo reg sw act actor lnk (S n) (FObj kvs) = Some (IObj p k fs) -> reads_ok jr lo k = true ->
+  p = true /\ sw (jstr (jget (FObj kvs) (B "type"))) = Some k /\
+  exists rs, reads_of jr k = Some rs /\
+    (forall r, In r rs -> exists ov, entry_value jr (load_item jr lo reg sw act actor lnk n) (FObj kvs) r = Some ov /\ getf (rf_fid r) fs = ov) /\
+    (forall f, ~ In f (map rf_fid rs) -> getf f fs = None).
+Proof. exact fields_read. Qed.
+
+Theorem C05_fields_read : forall n kvs p k fs, load (S n) (FObj kvs) = Some (IObj p k fs) ->
+  p = true /\ load_switch (jstr (jget (FObj kvs) (B "type"))) = Some k /\
+  exists rs, reads_of jr_tables k = Some rs /\
+    (forall r, In r rs -> exists ov, entry_value jr_tables (load n) (FObj kvs) r = Some ov /\ getf (rf_fid r) fs = ov) /\
+    (forall f, ~ In f (map rf_fid rs) -> getf f fs = None).
+Proof. exact fields_read_inst. Qed.
+
+(* ---- (2) shape independence, once for every item-valued property of every type ----
+   m = the member of the document object under the property's term;
+   elem_loads rec x i: x is an IRI string (an absolute URL) or an embedded object, and loads to the item i;
+   list_value its = its with repeated items dropped (ItemCollection.Append; its itself when the members have
+   distinct ids, C13). *)
+Theorem C05_shape_independence_generic :
+  forall jr lo reg sw act actor lnk n kvs p k fs,
+  load_item jr lo reg sw act actor lnk (S n) (FObj kvs) = Some (IObj p k fs) -> reads_ok jr lo k = true ->
+  forall rs r, reads_of jr k = Some rs -> In r rs ->
+  let rec := load_item jr lo reg sw act actor lnk n in
+  let m := jget (FObj kvs) (rf_term r) in
+  (is_item_getter r = true \/ is_uri_getter r = true ->
+     (forall x i, m = Some x -> elem_loads rec x i -> getf (rf_fid r) fs = Some (FItem i)) /\
+     (forall l its, m = Some (FArr l) -> Forall2 (elem_loads rec) l its ->
+                    getf (rf_fid r) fs = Some (FItem (IItems false (Some (list_value its))))) /\
+     (m = None -> getf (rf_fid r) fs = None)) /\
+  (is_items_getter r = true ->
+     (forall x i, m = Some x -> elem_loads rec x i -> getf (rf_fid r) fs = Some (FItems (Some [i]))) /\
+     (forall l its, m = Some (FArr l) -> Forall2 (elem_loads rec) l its -> its <> [] ->
+                    getf (rf_fid r) fs = Some (FItems (Some (list_value its)))) /\
+     (m = None -> getf (rf_fid r) fs = None)).
+Proof. exact shape_independence. Qed.
+
+Theorem C05_shape_independence : forall n kvs p k fs, load (S n) (FObj kvs) = Some (IObj p k fs) ->
+  forall rs r, reads_of jr_tables k = Some rs -> In r rs ->
+  let m := jget (FObj kvs) (rf_term r) in
+  (is_item_getter r = true \/ is_uri_getter r = true ->
+     (forall x i, m = Some x -> elem_loads (load n) x i -> getf (rf_fid r) fs = Some (FItem i)) /\
+     (forall l its, m = Some (FArr l) -> Forall2 (elem_loads (load n)) l its ->
+                    getf (rf_fid r) fs = Some (FItem (IItems false (Some (list_value its))))) /\
+     (m = None -> getf (rf_fid r) fs = None)) /\
+  (is_items_getter r = true ->
+     (forall x i, m = Some x -> elem_loads (load n) x i -> getf (rf_fid r) fs = Some (FItems (Some [i]))) /\
+     (forall l its, m = Some (FArr l) -> Forall2 (elem_loads (load n)) l its -> its <> [] ->
+                    getf (rf_fid r) fs = Some (FItems (Some (list_value its)))) /\
+     (m = None -> getf (rf_fid r) fs = None)).
+Proof. exact shape_independence_inst. Qed.
+
+(* an array of one in a list position is the single value in a list position *)
+Theorem C05_array_of_one : forall i, list_value [i] = [i].
+Proof. exact list_value_one. Qed.
+(* an IRI string is an element at every level of embedding *)
+Theorem C05_iri_string_element : forall n raw, as_iri (Text.FStr raw) = Some (Some (fj_unescape raw)) -> fj_unescape raw <> [] ->
+  elem_loads (load (S n)) (Text.FStr raw) (IIri false (fj_unescape raw)).
+Proof. exact (elem_loads_string jr_tables layout_of registry load_switch tl_ActivityTypes tl_ActorTypes tl_LinkTypes). Qed.
+(* the statement is not vacuous on the current tables: every kind has item-valued read entries of these two
+   forms (today 12 to 19 single-item and 6 or 7 list properties per object kind; Link has preview) *)
+Example C05_shape_coverage :
+  forallb (fun k => match reads_of jr_tables k with
+                    | Some rs => Nat.ltb 0 (length (filter (fun r => is_item_getter r || is_uri_getter r || is_items_getter r) rs))
+                    | None => false end) all_kinds = true.
+Proof. vm_compute. reflexivity. Qed.
+
+(* ---- non-vacuity: the hypotheses hold for non-trivial documents ---- *)
+(* a compact document and a re-ordered, re-escaped, white-space-decorated one with an unknown member *)
+Definition c05_v1 : fjv :=
+  FObj [(B "type", Text.FStr (B "Note")); (B "to", FArr [Text.FStr (B "https://a.example/1")]); (B "name", Text.FStr (B "x"))].
+Definition c05_t1 : wt := wt_of_fjv c05_v1.
+Definition c05_t2 : wt :=
+  WObj [] [WM (B " ") (B "x-b27") [] (hx "09") (WArr [] [([], WNum (B "1"), []); (B " ", WTrue, hx "0a")]) [];
+           WM (hx "0a") (B "name") (B " ") (B " ") (WStr (B "x")) (B " ");
+           WM [] (B "type") [] [] (WStr (B "Note")) (hx "0d0a");
+           WM [] (B "to") [] [] (WArr [] [(B " ", WStr (B "https:\/\/a.example\/1"), B " ")]) []].
+
+Example C05_equivalent_documents_example :
+  wf_wt c05_t1 = true /\ wf_wt c05_t2 = true /\ (wdepth c05_t1 <= 300)%nat /\ (wdepth c05_t2 <= 300)%nat /\
+  keys_clean (strip c05_t1) = true /\ keys_clean (strip c05_t2) = true /\
+  doc_equiv known text (strip c05_t1) (strip c05_t2) /\
+  wprint c05_t1 = B "{""type"":""Note"",""to"":[""https://a.example/1""],""name"":""x""}" /\
+  wprint c05_t2 = B "{ ""x-b27"":" ++ hx "09" ++ B "[1, true" ++ hx "0a" ++ B "]," ++ hx "0a" ++ B """name"" : ""x"" ,""type"":""Note""" ++ hx "0d0a"
+                  ++ B ",""to"":[ ""https:\/\/a.example\/1"" ]}" /\
+  dec ([] ++ wprint c05_t1 ++ []) = dec (B " " ++ wprint c05_t2 ++ hx "0a") /\
+  dec (B " " ++ wprint c05_t2 ++ hx "0a")
+    = Some (Ok (IObj true KObject [(F_Type, FStr (B "Note")); (F_Name, FNlv (Some [(B "-", B "x")]));
+                                   (F_To, FItems (Some [IIri false (B "https://a.example/1")]))])).
+Proof.
+  assert (E : doc_equiv known text (strip c05_t1) (strip c05_t2)).
+  { unfold c05_t1. rewrite strip_wt_of_fjv.
+    set (ty := (B "type", Text.FStr (B "Note"))). set (nm := (B "name", Text.FStr (B "x"))).
+    set (xb := (B "x-b27", FArr [FNum (B "1"); FTrue])).
+    apply de_trans with (FObj ([ty; (B "to", FArr [Text.FStr (B "https://a.example/1")])] ++ [xb; nm])).
+    { apply de_step. apply (C05_unknown_member [ty; (B "to", FArr [Text.FStr (B "https://a.example/1")])] (B "x-b27")).
+      vm_compute. reflexivity. }
+    apply de_trans with (FObj ([xb; nm] ++ [ty; (B "to", FArr [Text.FStr (B "https://a.example/1")])])).
+    { apply de_step. apply C05_member_order; [apply Permutation_app_comm|].
+      repeat constructor; vm_compute; intuition discriminate. }
+    apply de_step.
+    apply (C05_inside_member [xb; nm; ty] (B "to") (FArr [Text.FStr (B "https://a.example/1")])
+                             (FArr [Text.FStr (B "https:\/\/a.example\/1")]) []).
+    - vm_compute. discriminate.
+    - intros _. apply teq_arr. constructor; [|constructor]. apply teq_str. vm_compute. reflexivity. }
+  assert (D1 : (wdepth c05_t1 <= 300)%nat) by (vm_compute; lia).
+  assert (D2 : (wdepth c05_t2 <= 300)%nat) by (vm_compute; lia).
+  split; [vm_compute; reflexivity|]. split; [vm_compute; reflexivity|]. split; [exact D1|]. split; [exact D2|].
+  split; [vm_compute; reflexivity|]. split; [vm_compute; reflexivity|]. split; [exact E|].
+  split; [vm_compute; reflexivity|]. split; [vm_compute; reflexivity|]. split; [|vm_compute; reflexivity].
+  apply C05_equivalent_documents; try exact D1; try exact D2; try exact E; vm_compute; reflexivity.
+Qed.
+
+(* one property in the three shapes, with an IRI string and an embedded object as elements *)
+Definition c05_alice : fjv := Text.FStr (B "https://example.com/actors/alice").
+Definition c05_bob : fjv := FObj [(B "type", Text.FStr (B "Person")); (B "id", Text.FStr (B "https://example.com/actors/bob"))].
+Definition c05_bob_item : item :=
+  IObj true KActor [(F_ID, FStr (B "https://example.com/actors/bob")); (F_Type, FStr (B "Person"))].
+Definition c05_note (x : fjv) : list (bytes * fjv) :=
+  [(B "type", Text.FStr (B "Note")); (B "attributedTo", x); (B "cc", x)].
+
+Example C05_shape_independence_example :
+  (* the elements *)
+  elem_loads (load 63) c05_alice (IIri false (B "https://example.com/actors/alice")) /\
+  elem_loads (load 63) c05_bob c05_bob_item /\
+  (* the read entries of the two properties *)
+  (exists rs r1 r2, reads_of jr_tables KObject = Some rs /\ In r1 rs /\ In r2 rs /\
+     is_item_getter r1 = true /\ rf_term r1 = B "attributedTo" /\ rf_fid r1 = F_AttributedTo /\
+     is_items_getter r2 = true /\ rf_term r2 = B "cc" /\ rf_fid r2 = F_CC) /\
+  (* the documents decode *)
+  (forall x, In x [c05_alice; c05_bob; FArr [c05_bob]; FArr [c05_alice; c05_bob]] ->
+     exists fs, load 64 (FObj (c05_note x)) = Some (IObj true KObject fs)) /\
+  (* what the theorem then says, on the last one *)
+  (forall fs, load 64 (FObj (c05_note (FArr [c05_alice; c05_bob]))) = Some (IObj true KObject fs) ->
+     getf F_AttributedTo fs = Some (FItem (IItems false (Some [IIri false (B "https://example.com/actors/alice"); c05_bob_item]))) /\
+     getf F_CC fs = Some (FItems (Some [IIri false (B "https://example.com/actors/alice"); c05_bob_item]))).
+Proof.
+  assert (Ha : elem_loads (load 63) c05_alice (IIri false (B "https://example.com/actors/alice"))).
+  { apply (C05_iri_string_element 62); [vm_compute; reflexivity|vm_compute; discriminate]. }
+  assert (Hb : elem_loads (load 63) c05_bob c05_bob_item).
+  { split; [vm_compute; reflexivity|]. split; [discriminate|exact I]. }
+  split; [exact Ha|]. split; [exact Hb|].
+  assert (Hr : exists rs r1 r2, reads_of jr_tables KObject = Some rs /\ In r1 rs /\ In r2 rs /\
+     is_item_getter r1 = true /\ rf_term r1 = B "attributedTo" /\ rf_fid r1 = F_AttributedTo /\
+     is_items_getter r2 = true /\ rf_term r2 = B "cc" /\ rf_fid r2 = F_CC).
+  { eexists. exists (mkrf F_AttributedTo (B "attributedTo") (B "JSONGetItem") [] []), (mkrf F_CC (B "cc") (B "JSONGetItems") [] []).
+    split; [vm_compute; reflexivity|]. split; [vm_compute; tauto|]. split; [vm_compute; tauto|].
+    repeat split; vm_compute; reflexivity. }
+  split; [exact Hr|]. split.
+  - intros x [<-|[<-|[<-|[<-|[]]]]]; eexists; vm_compute; reflexivity.
+  - intros fs Hl. destruct Hr as [rs [r1 [r2 [Hrs [I1 [I2 [G1 [T1 [F1 [G2 [T2 F2]]]]]]]]]]].
+    assert (Hl2 : Forall2 (elem_loads (load 63)) [c05_alice; c05_bob] [IIri false (B "https://example.com/actors/alice"); c05_bob_item])
+      by (constructor; [exact Ha|]; constructor; [exact Hb|]; constructor).
+    assert (Hv : list_value [IIri false (B "https://example.com/actors/alice"); c05_bob_item]
+                 = [IIri false (B "https://example.com/actors/alice"); c05_bob_item]) by (vm_compute; reflexivity).
+    split.
+    + destruct (C05_shape_independence 63 _ _ _ _ Hl rs r1 Hrs I1) as [S1 _]. destruct (S1 (or_introl G1)) as [_ [Sl _]].
+      rewrite <- F1, <- Hv. apply (Sl [c05_alice; c05_bob]); [rewrite T1; vm_compute; reflexivity|exact Hl2].
+    + destruct (C05_shape_independence 63 _ _ _ _ Hl rs r2 Hrs I2) as [_ S2]. destruct (S2 G2) as [_ [Sl _]].
+      rewrite <- F2, <- Hv. apply (Sl [c05_alice; c05_bob]); [rewrite T2; vm_compute; reflexivity|exact Hl2|discriminate].
 Qed.
